@@ -23,7 +23,7 @@ RULE = (
     "done.invoke of an instantly returning service re-entering its state, self-enqueueing pure / choose / "
     "enqueueActions} x maxIterations M x natural length L in {M-1, M, M+1, inf} x trigger {start(), event} x engine; "
     "REPEAT machines = M+2 finite chains of M-1 self-raised events each in ONE interpreter, started through send / send_events / a mix / a re-arming after-timer (none may be cut: the bound is per macrostep); "
-    "BURST machines = B external events (send_events / separate sends) for B in {M-1, M+1, 3M}; each case is one "
+    "BURST machines = B external events (send_events / separate sends / sends arriving while an async action of the current macrostep is suspended) for B in {M-1, M+1, 3M}; each case is one "
     "execution judged on: returns within budget, natural end for L<M, ERROR log + legal configuration + answering a "
     "probe event for L>M, every external event processed; distinct_nontrivial = distinct cases"
 )
@@ -183,7 +183,7 @@ def units(tier: str) -> List[Any]:
             us.append(("loop", kind, 60, 55, "event"))
     for M in Ms:
         for B in (M - 1, M + 1, 3 * M):
-            for how in ("send_events", "sends"):
+            for how in ("send_events", "sends", "during-suspended-action"):
                 us.append(("burst", how, M, B, None))
     return us
 
@@ -323,12 +323,31 @@ def run_unit(unit):
                 d.close()
         else:
             _, how, M, B, _ = unit
-            h = Harness(burst_cfg(M), with_plugin=True, budget=5000)
+            if how == "during-suspended-action" and engine == "sync":
+                continue  # a sync action cannot suspend; outside sends during a drain are C04's thread slice
+            cfgb = burst_cfg(M)
+            acts = {}
+            if how == "during-suspended-action":
+                import asyncio as _asyncio
+
+                async def slow(interp, ctx, ev, ad):
+                    await _asyncio.sleep(0.1)
+
+                cfgb["states"]["a"]["on"]["SLOW"] = {"actions": ["slow"]}
+                acts = {"slow": slow}
+            h = Harness(cfgb, with_plugin=True, budget=5000, extra_actions=acts)
             d = h.driver(engine)
             try:
                 d.start()
                 core.LOG.reset()
-                if how == "send_events":
+                if how == "during-suspended-action":
+                    # the macrostep of SLOW is suspended in its action while B outside events arrive; then it resumes
+                    d.send("SLOW")
+                    for i in range(B):
+                        d.send("E", n=i)
+                    d.advance(0.2)
+                    d.settle()
+                elif how == "send_events":
                     evs = [{"type": "E", "n": i} for i in range(B)]
                     if engine == "sync":
                         d.interp.send_events(evs)
